@@ -202,7 +202,9 @@ class DocGen:
         name = self.rng.choice(['php', 'foo', 'p', 'x', 'xml-stylesheet', 'xmlfoo'])
         if name.startswith('xml'):
             self.knobs.add('pi-xml-prefixed-target')
-        return '<?' + name + self.rng.choice(['', ' a="b" ', ' echo 1; ', '\n x ', ' href="s.css" type=\'t\'']) + '?>'
+        # an instruction ends at the first '?>', whatever quotes or apostrophes its data holds
+        return '<?' + name + self.rng.choice(['', ' a="b" ', ' echo 1; ', '\n x ', ' href="s.css" type=\'t\'', " // don't ", ' echo "a', " it's 'q", ' x="1\' ',
+                                              ' ? ', ' a?b ', ' "?" ', ' > ', ' < ', " title='what?' "]) + '?>'
 
     def element(self, depth):
         rng = self.rng
